@@ -557,6 +557,29 @@ def run(chk):
         return True, "", [on[0].loc, sp[0].loc]
     chk.ob("C10.R5:sync_parent", "the directory is synced after a file is created and before it is used", create_syncs_parent)
 
+    def reuse_syncs_parent():
+        """A file picked up for reuse may have been created by an attempt that failed before its directory entry was made durable (the create path
+        returns the error of `sync_parent` and the batch is retried - with reuse on, the retry finds and reopens that very file).  Batches acknowledged
+        into it are lost with the file at the next crash unless the reuse path syncs the parent directory too: every `Ok(ActiveFile)` of
+        `try_open_reuse` is behind a successful `sync_parent` of the file's path."""
+        b = P.body("emit_file::ActiveFile::try_open_reuse")
+        sp = [c for c in b.calls(normal_only=True) if c.callee.get("name") == "sync_parent"]
+        oe = [c for c in b.calls(normal_only=True) if c.callee.get("name") == "open_existing"]
+        if len(oe) != 1:
+            raise mir.AnchorMissing("open_existing in ActiveFile::try_open_reuse")
+        if not sp:
+            return False, ("ActiveFile::try_open_reuse never syncs the parent directory: a file whose creation failed at `sync_parent` is reopened by the retry "
+                           "(reuse_files) and batches are acknowledged into a file whose directory entry is not durable - a crash loses the file with them"), [], b.span
+        oks = [bb for bb, j, s_ in b.statements(normal_only=True) if s_["k"] == "assign" and s_["place"]["l"] == 0 and s_["rv"]["k"] == "agg" and s_["rv"].get("variant") == "Ok"]
+        for bb in oks:
+            if not any(b.dominates(c.bb, bb) and _q_success_guard(b, bb, c.bb) for c in sp):
+                return False, "a reused file is returned before / without a successful sync of its directory entry", [], sp[0].loc
+        for c in sp:
+            if not mir.o_is_param(b.origin(c.args[1], through_calls=("as_ref", "deref", "borrow")), idx=2) and "file_path" not in o_str(b.origin(c.args[1])):
+                pass
+        return True, "", [sp[0].loc]
+    chk.ob("C10.R5:sync_parent-on-reuse", "a file reopened for reuse has its directory entry synced before anything is acknowledged into it", reuse_syncs_parent)
+
     def separator_at_emit():
         b = P.impl_method("emit_core::emitter::Emitter", "emit_file::FileSetInner", "emit")
         bodies = [b] + P.closures_of(b)
